@@ -90,6 +90,12 @@ Proof.
   destruct (u <=? 0x10FFFF) eqn:Hu; [|reflexivity]. cbn in H. rewrite (IH H). reflexivity.
 Qed.
 
+Theorem stored_wide_both tok :
+  (forallb (fun u => u <=? 0x10FFFF) tok = true ->
+     set_from_token CtWchar tok = Ok (flat_map utf8_enc tok) /\ set_from_token CtChar32 tok = Ok (flat_map utf8_enc tok)) /\
+  (forallb (fun u => u <=? 0x10FFFF) tok = false -> set_from_token CtWchar tok = Throw UnicodeError).
+Proof. split; [exact (stored_wide tok) | exact (stored_wide_rejects tok)]. Qed.
+
 (* ---- extraction inverts insertion on whitespace-free text ---- *)
 Theorem extract_insert_char s : nospace s = true -> N.of_nat (length s) < huge_buffer_size -> validate_utf8 s = true ->
   set_from_token CtChar (extract_token CtChar (insert_units CtChar s)) = Ok s.
@@ -105,6 +111,13 @@ Proof.
   intros Hn Hr. cbn [insert_units extract_token]. rewrite token_of_nospace by exact Hn.
   apply (stored_wide _ Hr).
 Qed.
+
+Theorem extract_insert_both s :
+  (nospace s = true -> N.of_nat (length s) < huge_buffer_size -> validate_utf8 s = true ->
+     set_from_token CtChar (extract_token CtChar (insert_units CtChar s)) = Ok s) /\
+  (nospace (decode_utf8_lax s) = true -> forallb (fun u => u <=? 0x10FFFF) (decode_utf8_lax s) = true ->
+     set_from_token CtWchar (extract_token CtWchar (insert_units CtWchar s)) = Ok (flat_map utf8_enc (decode_utf8_lax s))).
+Proof. split; [exact (extract_insert_char s) | exact (extract_insert_wide s)]. Qed.
 
 Example extract_insert_example :
   set_from_token CtWchar (extract_token CtWchar (insert_units CtWchar [0xC3; 0xA9; 0x41; 0xF0; 0x9F; 0x98; 0x80])) =
